@@ -277,3 +277,138 @@ func shiftObs(a *boundsAn, ins ssa.Instruction) []boundsOb {
 	}
 	return []boundsOb{{ins, fmt.Sprintf("shift count < %d", width), linConst(width - 1).sub(a.formOf(b.Y))}}
 }
+
+// narrowArithObs: an addition, constant multiplication or constant left shift carried out IN an 8- or
+// 16-bit unsigned type on a value read from the wire or derived from a length, whose result is an
+// operand of a comparison (a bound test), must not wrap above the type's range at that point: a
+// decoder's test written as `n+3 > size` in byte arithmetic lets n = 253..255 through. Sums that
+// feed a slice expression are not covered here (the run-time bounds check sees the wrapped value
+// and panics: C10's subject), nor are subtractions (guarded by a test on a value that go/ssa
+// reloads from memory; the engine does not merge those loads).
+func narrowArithObs(a *boundsAn, ins ssa.Instruction) []boundsOb {
+	b, ok := ins.(*ssa.BinOp)
+	if !ok {
+		return nil
+	}
+	switch b.Op {
+	case token.ADD:
+	case token.MUL:
+		_, cx := constInt(b.X)
+		_, cy := constInt(b.Y)
+		if !cx && !cy {
+			return nil
+		}
+	case token.SHL:
+		if _, cy := constInt(b.Y); !cy {
+			return nil
+		}
+	default:
+		return nil
+	}
+	lo, hi, ok := typeRange(b.Type())
+	if !ok || lo != 0 || (hi != 255 && hi != 65535) {
+		return nil
+	}
+	if !derivesFromWire(b.X, 0) && !derivesFromWire(b.Y, 0) &&
+		!derivesFromLen(b.X, 0, map[ssa.Value]bool{}) && !derivesFromLen(b.Y, 0, map[ssa.Value]bool{}) {
+		return nil
+	}
+	if !feedsComparison(b, 0) {
+		return nil
+	}
+	var f lin
+	switch b.Op {
+	case token.ADD:
+		f = a.formOf(reachingLocal(b.X)).add(a.formOf(reachingLocal(b.Y)))
+	case token.MUL:
+		if n, ok := constInt(b.Y); ok {
+			f = a.formOf(reachingLocal(b.X)).scale(n)
+		} else {
+			n, _ := constInt(b.X)
+			f = a.formOf(reachingLocal(b.Y)).scale(n)
+		}
+	default:
+		n, _ := constInt(b.Y)
+		if n < 0 || n >= 16 {
+			return nil
+		}
+		f = a.formOf(reachingLocal(b.X)).scale(1 << uint(n))
+	}
+	return []boundsOb{{ins, fmt.Sprintf("no wrap above %d in %d-bit arithmetic feeding a bound test", hi, bitsOf(hi)), linConst(hi).sub(f)}}
+}
+
+// reachingLocal: go/ssa reloads a local whose address was taken (binary.Read(r, order, &n)) at every
+// use. A load of such a local holds what the closest preceding load of the same local saw when only
+// a unique-predecessor chain without stores to it and without calls lies between the two: the value
+// the guard tested is the value the sum uses.
+func reachingLocal(v ssa.Value) ssa.Value {
+	ld, ok := v.(*ssa.UnOp)
+	if !ok || ld.Op != token.MUL {
+		return v
+	}
+	al, ok := ld.X.(*ssa.Alloc)
+	if !ok {
+		return v
+	}
+	b := ld.Block()
+	idx := instrIndex(ld)
+	first := ssa.Value(ld)
+	for hops := 0; hops < 8; hops++ {
+		for k := idx - 1; k >= 0; k-- {
+			switch x := b.Instrs[k].(type) {
+			case *ssa.Store:
+				if x.Addr == ssa.Value(al) {
+					return first
+				}
+			case *ssa.UnOp:
+				if x.Op == token.MUL && x.X == ssa.Value(al) {
+					first = x
+				}
+			case *ssa.Call:
+				if _, isB := x.Call.Value.(*ssa.Builtin); !isB {
+					return first
+				}
+			case *ssa.Go, *ssa.Defer:
+				return first
+			}
+		}
+		if len(b.Preds) != 1 {
+			return first
+		}
+		b = b.Preds[0]
+		idx = len(b.Instrs)
+	}
+	return first
+}
+
+// feedsComparison: v, possibly widened by conversions, is an operand of an ordering or equality test.
+func feedsComparison(v ssa.Value, depth int) bool {
+	if depth > 3 || v.Referrers() == nil {
+		return false
+	}
+	for _, r := range *v.Referrers() {
+		switch x := r.(type) {
+		case *ssa.BinOp:
+			switch x.Op {
+			case token.LSS, token.LEQ, token.GTR, token.GEQ, token.EQL, token.NEQ:
+				return true
+			}
+		case *ssa.Convert:
+			if feedsComparison(x, depth+1) {
+				return true
+			}
+		case *ssa.ChangeType:
+			if feedsComparison(x, depth+1) {
+				return true
+			}
+		}
+	}
+	return false
+}
+
+func bitsOf(hi int64) int {
+	if hi == 255 {
+		return 8
+	}
+	return 16
+}
